@@ -14,14 +14,37 @@ def run_sharded(driver, chk, w, extra=(), profile="release"):
     outs = [os.path.join(w, "part%02d.ndjson" % i) for i in range(n)]
 
     def one(i):
-        core.run_driver([driver, "--seed", chk.seed, "--tier", chk.tier, "--shard", i, "--nshards", n] + list(extra), outs[i],
-                        profile=profile, timeout=3000)
+        return core.run_driver([driver, "--seed", chk.seed, "--tier", chk.tier, "--shard", i, "--nshards", n] + list(extra), outs[i],
+                               profile=profile, timeout=3000, allow_death=True)
     with cf.ThreadPoolExecutor(max_workers=n) as ex:
-        list(ex.map(one, range(n)))
+        rcs = list(ex.map(one, range(n)))
     trace = os.path.join(w, "trace.ndjson")
+    import json
     with open(trace, "w") as f:
-        for o in outs:
-            f.write(open(o).read())
+        for o, rc in zip(outs, rcs):
+            # the driver flushes a "begin" marker before every call it makes in-process; a process that was killed
+            # (runaway memory, abort) leaves the marker of the call it was in: that call becomes an event with
+            # outcome "killed", which the trace specification rejects like a panic or a hang
+            pending = None
+            for line in open(o):
+                line = line.strip()
+                if not line:
+                    continue
+                try:
+                    e = json.loads(line)
+                except ValueError:
+                    continue            # torn last line of a killed process
+                if e.get("op") == "begin":
+                    pending = e
+                    continue
+                f.write(json.dumps(e, separators=(",", ":")) + "\n")
+            if isinstance(rc, int) and rc != 0:
+                if pending is None:
+                    raise core.ToolError("driver %s died (%d) outside any call" % (driver, rc))
+                e = dict(pending)
+                e.update({"op": "abort_run" if driver == "c05" else "run", "evs": [], "ret": "none", "list": [], "polls": 0, "dry_polls": 0,
+                          "units": 0, "outcome": "killed", "status": rc, "msg": "driver process died during this call", "loc": ""})
+                f.write(json.dumps(e, separators=(",", ":")) + "\n")
     return trace
 
 
